@@ -2,9 +2,10 @@
    bundle.go (AddGlobalsMap, Compile), template/registry.go (Add, Template),
    parsepasses/datarefcheck.go (CheckDataRefs), parsepasses/globals.go
    (SetGlobals), parsepasses/msgids.go (ProcessMessages; ids and names through
-   Model/MsgId.v), ast/node.go (Children), and of code generation the part whose
-   order Go leaves open: the ES6 import block of soyjs.Write (soyjs/exec.go
-   difference/Write, formatters.go) together with the walk that collects it.
+   Model/MsgId.v), ast/node.go (Children), and of code generation the one step
+   whose order Go leaves open: the emission of the ES6 import block from
+   funcsCalled / funcsInFile (soyjs/exec.go difference, Write).  The generator
+   itself, including the walk that fills those two maps, is Model/JsGen.v.
    Definitions only; proofs are in Proofs/CompileProofs.v.
 
    INVENTORY of every `for ... range` over a Go map, and every other source of
@@ -32,7 +33,7 @@
                                          oracle [o_imports]; repaired
                                          (C13-es6-imports-sorted.diff): names sorted.
    soyjs/exec.go:187 MapLiteralNode      no: keys are collected, sort.Strings, then
-     range node.Items                    emitted.  oracle [o_jsmap] + sort (proved).
+     range node.Items                    emitted ([sorted_after]; Model/JsGen.v sort_items).
    soymsg/placeholder.go:57 step 2       no after the C10 repair (commit cd68e40): the
      range baseNameToRepNodes            suffix search tests base names only; the writes of
                                          different base names commute.  oracle [o_ph]
@@ -88,8 +89,8 @@
    as parameters, so that the pinned behaviour ([pinned_orders]: map order used
    directly) is available for the refutations in Properties/C13.v.
 
-   Not modelled: the parser (a file arrives parsed, or as its parse error), the
-   rest of the JavaScript generator (branch wt-jsgen), rendering (Model/Interp.v).
+   Not modelled here: the parser (a file arrives parsed, or as its parse error),
+   the JavaScript generator (Model/JsGen.v), rendering (Model/Interp.v).
    SetGlobals and ProcessMessages write into the tree (GlobalNode.Value,
    MsgNode.ID, placeholder names); the model keeps these as side tables of the
    result ([cp_globals], [cp_msgs]) instead of rewriting nodes. *)
@@ -715,7 +716,6 @@ Record orders := {
   o_children : korder;   (* ast/node.go MapLiteralNode.Children *)
   o_ph : korder;         (* soymsg/placeholder.go step 2 *)
   o_imports : korder;    (* soyjs/exec.go difference *)
-  o_jsmap : korder;      (* soyjs/exec.go map literal emission *)
 }.
 
 Section Compile.
@@ -747,211 +747,31 @@ Section Compile.
      the keys are sorted where the code sorts them *)
   Definition repaired_orders (o : orders) : orders :=
     {| o_globals := sorted_after (o_globals o); o_children := sorted_after (o_children o); o_ph := o_ph o;
-       o_imports := sorted_after (o_imports o); o_jsmap := sorted_after (o_jsmap o) |}.
-  (* the tree as pinned: only the map literal emission of soyjs sorts *)
+       o_imports := sorted_after (o_imports o) |}.
+  (* the tree as pinned: the map order is used as it comes *)
   Definition pinned_orders (o : orders) : orders :=
     {| o_globals := o_globals o; o_children := o_children o; o_ph := o_ph o;
-       o_imports := o_imports o; o_jsmap := sorted_after (o_jsmap o) |}.
+       o_imports := o_imports o |}.
 
   Definition compile (o : orders) := compile_gen (repaired_orders o).
 End Compile.
 
 (* ------------------------------------------------------------------ *)
-(* soyjs: the ES6 import block                                        *)
+(* soyjs.Write: the ES6 import block                                  *)
 (* ------------------------------------------------------------------ *)
 
-(* ES6Identifier: strings.Replace(s, ".", "__", -1) *)
-Fixpoint replace_byte (from : N) (to : bstr) (s : bstr) : bstr :=
-  match s with
+(* What Write puts before the generated code, given s.funcsCalled (name ->
+   import line; a Go map) and s.funcsInFile as the walk left them (Model/JsGen.v
+   models that walk and this step for the repaired tree; it is restated here
+   with the key order as a parameter so that the pinned behaviour can be
+   refuted).  difference(funcsCalled, funcsInFile): the keys of funcsCalled that
+   are not templates of the file, collected in map order (and, since 3edbe48,
+   sorted).  The key order is applied to the collected keys: every order in
+   which a range over funcsCalled can deliver them is some order of that list. *)
+Definition import_block (ko : korder) (called : list (bstr * bstr)) (infile : list bstr) : bstr :=
+  match called with
   | [] => []
-  | c :: r => (if c =? from then to else [c]) ++ replace_byte from to r
+  | _ =>
+      let names := ko (filter (fun k => negb (mem_s k infile)) (map fst called)) in
+      flat_map (fun k => match assoc_s k called with Some line => line ++ [10] | None => [] end) names ++ [10]
   end.
-Definition es6_identifier (s : bstr) : bstr := replace_byte c13_es6_ident_from c13_es6_ident_to s.
-(* ES6Formatter.Call / Directive / Function: "import { " + ES6Identifier(name) + " } from '" + name + ".js';" *)
-Definition es6_import (name : bstr) : bstr :=
-  c13_es6_import_a ++ es6_identifier name ++ c13_es6_import_b ++ name ++ c13_es6_import_c.
-
-Inductive js_err :=
-| JUnknownDirective (name : bstr)     (* Print directive %q not found *)
-| JUnknownFunction (name : bstr)      (* unimplemented function: %v *)
-| JArgIndex (name : bstr)             (* a function's Apply indexes an argument that is not there: runtime panic, recovered *)
-| JUnknownNode                        (* unknown node (%T): %v *)
-| JOutOfFuel.
-
-(* s.funcsCalled (name -> import line), s.funcsInFile *)
-Record jst := { j_called : list (bstr * bstr); j_infile : list bstr }.
-
-Definition k_range : bstr := Eval vm_compute in b "range".
-Definition k_id : bstr := Eval vm_compute in b "id".
-Definition k_no_autoescape : bstr := Eval vm_compute in b "noAutoescape".
-
-(* which arguments the Apply function of a soyjs.Funcs entry writes (and so
-   walks), in order; hand-modelled from soyjs/funcs.go (names checked against
-   the regenerated table in Proofs/CompileProofs.v) *)
-Inductive arg_use := ArgsAll | ArgsIdx (l : list nat) | ArgsRound.
-Definition js_func_args : list (bstr * arg_use) := Eval vm_compute in
-  [(b "isNonnull", ArgsIdx [0%nat]); (b "length", ArgsIdx [0%nat]); (b "keys", ArgsAll); (b "augmentMap", ArgsAll);
-   (b "round", ArgsRound); (b "floor", ArgsIdx [0%nat]); (b "ceiling", ArgsIdx [0%nat]);
-   (b "min", ArgsIdx [0%nat; 1%nat]); (b "max", ArgsIdx [0%nat; 1%nat]); (b "randomInt", ArgsIdx [0%nat]);
-   (b "strContains", ArgsIdx [0%nat; 1%nat]); (b "hasData", ArgsIdx []); (b "bidiGlobalDir", ArgsIdx []);
-   (b "bidiDirAttr", ArgsIdx [0%nat]); (b "bidiStartEdge", ArgsIdx []); (b "bidiEndEdge", ArgsIdx [])].
-
-Fixpoint pick_args (idx : list nat) (args : list node) : option (list node) :=
-  match idx with
-  | [] => Some []
-  | i :: r => match nth_error args i, pick_args r args with
-              | Some a, Some l => Some (a :: l)
-              | _, _ => None
-              end
-  end.
-Definition used_args (u : arg_use) (args : list node) : option (list node) :=
-  match u with
-  | ArgsAll => Some args
-  | ArgsIdx l => pick_args l args
-  | ArgsRound => match args with
-                 | [] => None
-                 | [a] => Some [a]
-                 | a :: a1 :: _ => Some [a; a1; a1]
-                 end
-  end.
-
-Section JsCollect.
-  Variable ko : korder.   (* map literal emission *)
-
-  Fixpoint js_seq (w : jst -> node -> js_err + jst) (st : jst) (l : list node) : js_err + jst :=
-    match l with
-    | [] => inr st
-    | n :: r => match w st n with inr st' => js_seq w st' r | inl e => inl e end
-    end.
-
-  (* the directive loop of visitPrint: the imports are recorded before anything is walked *)
-  Fixpoint js_directives (st : jst) (dirs : list node) : js_err + jst :=
-    match dirs with
-    | [] => inr st
-    | NDirective _ name _ :: r =>
-        match assoc_s name c13_js_directives with
-        | None => inl (JUnknownDirective name)
-        | Some (jsname, _) =>
-            if bstr_eqb name k_id || bstr_eqb name k_no_autoescape then js_directives st r
-            else js_directives {| j_called := put (j_called st) name (es6_import jsname); j_infile := j_infile st |} r
-        end
-    | _ :: _ => inl JUnknownNode
-    end.
-  (* the arguments of the directives that are emitted (id and noAutoescape are markers only) *)
-  Definition directive_args (d : node) : list node :=
-    match d with
-    | NDirective _ name args => if bstr_eqb name k_id || bstr_eqb name k_no_autoescape then [] else args
-    | _ => []
-    end.
-
-  (* visitMsgNode: raw text, placeholders and plurals only *)
-  Definition msg_children (l : list node) : list node :=
-    flat_map (fun c => match c with
-                       | NMsgPlaceholder _ _ body => [body]
-                       | NMsgPlural _ _ _ _ _ => [c]
-                       | _ => []
-                       end) l.
-
-  Definition js_body (w : jst -> node -> js_err + jst) (st : jst) (n : node) : js_err + jst :=
-    match n with
-    | NNamespace _ _ _ | NSoyDoc _ _ | NRawText _ _ | NMsgHtmlTag _ _ | NDebugger _
-    | NNull _ | NString _ _ _ | NInt _ _ | NFloat _ _ | NBool _ _ | NGlobal _ _ _ => inr st
-    | NTemplate _ name body _ _ =>
-        w {| j_called := j_called st; j_infile := j_infile st ++ [es6_identifier name] |} body
-    | NList _ ns => js_seq w st ns
-    | NPrint _ arg dirs =>
-        match js_directives st dirs with
-        | inl e => inl e
-        | inr st1 => js_seq w st1 (arg :: flat_map directive_args dirs)
-        end
-    | NMsg _ _ _ _ body => js_seq w st (msg_children body)
-    | NMsgPlural _ _ v cases dflt =>
-        js_seq w st (v :: flat_map (fun c => match c with NMsgPluralCase _ _ body => msg_children body | _ => [] end) cases
-                       ++ msg_children dflt)
-    | NCss _ e _ => js_seq w st (olist e)
-    | NLog _ body => w st body
-    | NIf _ conds => js_seq w st (flat_map (fun c => match c with NIfCond _ cond body => olist cond ++ [body] | _ => [c] end) conds)
-    | NFor _ _ l body ie =>
-        match (match l with
-               | NFunc _ fname args =>
-                   if bstr_eqb fname k_range then
-                     (* visitForRange: limit, init, increment; the range call itself and IfEmpty are not generated *)
-                     Some (match args with
-                           | [lim] => [lim]
-                           | [i; lim] => [lim; i]
-                           | [i; lim; inc] => [lim; i; inc]
-                           | _ => []
-                           end)
-                   else None
-               | _ => None
-               end) with
-        | Some walked => js_seq w st (walked ++ [body])
-        | None => js_seq w st (l :: body :: olist ie)       (* visitForeach *)
-        end
-    | NSwitch _ v cases =>
-        js_seq w st (v :: flat_map (fun c => match c with NSwitchCase _ vals body => vals ++ [body] | _ => [c] end) cases)
-    | NCall _ name _ data ps =>
-        match js_seq w st (olist data ++ flat_map (fun p => match p with
-                                                            | NParamValue _ _ v => [v]
-                                                            | NParamContent _ _ c => [c]
-                                                            | _ => []
-                                                            end) ps) with
-        | inl e => inl e
-        | inr st1 => inr {| j_called := put (j_called st1) (es6_identifier name) (es6_import name); j_infile := j_infile st1 |}
-        end
-    | NLetValue _ _ e => w st e
-    | NLetContent _ _ body => w st body
-    | NListLit _ items => js_seq w st items
-    | NMapLit _ items => js_seq w st (map_values ko items)
-    | NFunc _ name args =>
-        match assoc_s name js_func_args with
-        | Some u =>
-            match used_args u args with
-            | None => inl (JArgIndex name)
-            | Some l =>
-                match js_seq w st l with
-                | inl e => inl e
-                | inr st1 => inr {| j_called := put (j_called st1) name (es6_import name); j_infile := j_infile st1 |}
-                end
-            end
-        | None =>
-            if bstr_eqb name k_is_first || bstr_eqb name k_is_last || bstr_eqb name k_index then inr st
-            else inl (JUnknownFunction name)
-        end
-    | NDataRef _ _ acc => js_seq w st (flat_map (fun a => match a with NAccExpr _ _ e => [e] | _ => [] end) acc)
-    | NNeg _ a => w st a
-    | NNot _ a => w st a
-    | NBin OElvis _ a1 a2 => js_seq w st [a1; a1; a2]
-    | NBin _ _ a1 a2 => js_seq w st [a1; a2]
-    | NTern _ a1 a2 a3 => js_seq w st [a1; a2; a3]
-    | _ => inl JUnknownNode
-    end.
-
-  Fixpoint js_node (fuel : nat) (st : jst) (n : node) : js_err + jst :=
-    match fuel with
-    | O => inl JOutOfFuel
-    | S f => js_body (js_node f) st n
-    end.
-End JsCollect.
-
-Definition file_fuel (f : sfile) : nat := fold_right (fun n acc => Nat.max (walk_fuel n) acc) 2%nat (sfile_body f).
-
-(* soyjs.Write with Options{Formatter: ES6Formatter{}} and no message bundle:
-   the bytes written before the generated code (importsBuf) *)
-Definition es6_import_block (o : orders) (f : sfile) : js_err + bstr :=
-  match js_seq (js_node (o_jsmap o) (file_fuel f)) {| j_called := []; j_infile := [] |} (sfile_body f) with
-  | inl e => inl e
-  | inr st =>
-      match j_called st with
-      | [] => inr []
-      | called =>
-          (* difference(funcsCalled, funcsInFile): the keys of funcsCalled that are not
-             templates of the file, collected in map order (and, since 3edbe48, sorted).
-             The key order is applied to the collected keys: every order in which a
-             range over funcsCalled can deliver them is some order of that list. *)
-          let names := o_imports o (filter (fun k => negb (mem_s k (j_infile st))) (map fst called)) in
-          inr (flat_map (fun k => match assoc_s k called with Some line => line ++ [10] | None => [] end) names ++ [10])
-      end
-  end.
-(* with the keys sorted before they are written: the repaired tree *)
-Definition es6_imports (o : orders) (f : sfile) : js_err + bstr := es6_import_block (repaired_orders o) f.
